@@ -126,7 +126,12 @@ fn check_routing(cmds: &[Vec<u8>], st: &mut Stats) -> Result<(), Violation> {
     // replies for everything answered must decode, and nothing else may have been sent
     let ans = exp.answered[k];
     if ans != usize::MAX {
-        let d = decode_all(&o.sim.out[..o.sim.flushed], &conv, &s.last_seq, ans, false).map_err(|e| Violation::new("reply-decode", e))?;
+        let refused = !exp.ok[k];
+        let d = decode_all(&o.sim.out[..o.sim.flushed], &conv, &s.last_seq, ans, refused).map_err(|e| Violation::new("reply-decode", e))?;
+        if refused {
+            // a refused command may be answered by one ERR before the connection ends
+            trailing_is_at_most_one_err(&d).map_err(|e| Violation::new("stray-output-after-refusal", e))?;
+        }
         // light reply-kind check for library-answered commands
         for (i, c) in cmds.iter().take(ans).enumerate() {
             let r = &d.replies[i];
